@@ -694,7 +694,7 @@ impl Model {
     ) -> (Option<String>, Option<usize>, bool, bool, bool) {
         let di = crate::exec::declared_integrity_ex(integ, algo, data, other).map(|s| blob::sri_canon(&s).unwrap());
         let ds = declared_size(declare, data.len());
-        let ok_int = matches!(integ, IntegDecl::None | IntegDecl::Correct | IntegDecl::MultiWithCorrect | IntegDecl::MultiTwoAlgos | IntegDecl::MultiWeakerOfOther | IntegDecl::MultiStrongerOfOther | IntegDecl::MultiThree | IntegDecl::MultiRightInTheMiddle)
+        let ok_int = matches!(integ, IntegDecl::None | IntegDecl::Correct | IntegDecl::MultiWithCorrect | IntegDecl::MultiTwoAlgos | IntegDecl::MultiWeakerOfOther | IntegDecl::MultiStrongerOfOther | IntegDecl::MultiThree | IntegDecl::MultiRightInTheMiddle | IntegDecl::MultiWeakerOfSame)
             || (integ == IntegDecl::DigestOfOtherBlob && other == data);
         let undecided_int = matches!(integ, IntegDecl::OtherAlgoCorrect);
         let ok_size = ds.map(|n| n == data.len()).unwrap_or(true);
